@@ -121,6 +121,9 @@ def run(tier, rep):
     if ctl.violated:
         raise vlib.MachineryError('TaylorFFT violates %s\n%s' % (ctl.violated, ctl.out[-1200:]))
     vlib.require_ok(ctl)
+    live = vlib.tlc('TaylorFFT', cfg_text="CONSTANTS\n  MaxIters = {3, 8, 30}\n  NumExtraps = {0, 3}\nSPECIFICATION FairSpec\nCHECK_DEADLOCK FALSE\nPROPERTY Termination\n", tag='TaylorFFT_live', timeout=1800)
+    if live.violated or live.error:
+        raise vlib.MachineryError('TaylorFFT liveness failed: %s %s' % (live.violated, (live.error or '')[:600]))
     lem = vlib.tlc('MC_TaylorFams', cfg='MC_TaylorFams.cfg')
     vlib.require_ok(lem)
     from numdifftools import fornberg as fb
@@ -194,7 +197,7 @@ def run(tier, rep):
         surv.sort(reverse=True)
         for t in surv[:30]:
             print('SURVEY ratio %.3g err %.3g est %.3g floor %.3g k=%d %s' % t)
-    states, trans, per = vlib.merge_tlc([ctl, lem, tres])
+    states, trans, per = vlib.merge_tlc([ctl, live, lem, tres])
     cov = dict(states=states, transitions=trans, traces_validated_against_impl=len(traces), coefficient_checks=nval,
                samples=[dict(case=owners[0], trace=traces[0])], evaluations=len(traces) + nval,
                distinct_nontrivial=len({nm for nm in owners if 'default' not in nm}),
